@@ -1727,3 +1727,289 @@ Proof.
     injection Hin as _ <-. split; [exact Hev|]. split; [exact Hp|].
     repeat (split; [reflexivity || assumption|]). exact Hans.
 Qed.
+
+(* ---------------------------------------------------------------------------------------- *)
+(* C16 *)
+
+(* success of a control operation: the step receives the matching response and the comparison of
+   the echo succeeded *)
+Theorem command_success_local cfg st ev tok tok' ph hs q d sd :
+  s_stopped st = false -> s_run st = RNonRead (NRCommand tok' ph hs) q d sd ->
+  In (ORes tok ROk) (map snd (snd (mstep cfg st ev))) ->
+  tok = tok' /\ ph <> PhSelect /\
+  exists src frag items h objs,
+    ev = ERx src frag VOk items /\ parse_response frag = PResponse h objs /\ h_unsol h = false /\
+    src = c_addr cfg /\ c_seq (h_ctrl h) = q /\ c_fir (h_ctrl h) = true /\ c_fin (h_ctrl h) = true /\
+    iin2_bad (h_iin2 h) = false /\ compare hs objs = COk.
+Proof.
+  intros Hs Hr Hin. apply in_act in Hin; [|reflexivity]. rewrite act_mstep in Hin by assumption.
+  destruct ev as [src frag v items|ms|tk t| | | | | |]; try contradiction.
+  unfold rx_act in Hin. destruct (s_conn st); cbn [negb] in Hin; [|contradiction].
+  destruct (parse_response frag) as [|h objs] eqn:Hp; [contradiction|].
+  destruct (h_unsol h) eqn:Hu.
+  { exfalso. unfold unsol_act, unsol_confirm in Hin. brk_in Hin. }
+  destruct (accepted_answer cfg st src h) eqn:Ha; [|contradiction].
+  destruct (accepted_answer_inv _ _ _ _ Ha) as (Hsrc & Hi & Hcase).
+  rewrite Hr in Hin.
+  destruct Hcase as [(kk & q0 & d0 & sd0 & Hr' & Hq & Hfir & Hfin)|(kk & q0 & f & d0 & sd0 & Hr' & _)];
+    rewrite Hr in Hr'; [|discriminate]. injection Hr' as <- <- <- <-.
+  unfold sol_confirm, nr_act in Hin.
+  apply in_app_or in Hin. destruct Hin as [Hin|Hin]; [brk_in Hin|].
+  destruct (s_assoc st); [|contradiction].
+  destruct v; try contradiction. destruct (compare hs objs) eqn:Hcmp; try contradiction.
+  destruct ph; try contradiction; cbn [In] in Hin; destruct Hin as [Hin|[Hin|[]]]; try discriminate;
+    injection Hin as <-; (split; [reflexivity|]); (split; [discriminate|]);
+    exists src, frag, items, h, objs; repeat split; assumption.
+Qed.
+
+(* C16.1 success_implies_faithful_echo.  When a control operation reports success, the step
+   received, from the addressed outstation and with the sequence number of the request on the
+   wire, a response whose object section splits into exactly the requested headers, every object
+   with the requested index, status SUCCESS and an equal value ([faithful_echo]); the request on
+   the wire is the OPERATE or DIRECT_OPERATE carrying the operation's objects - for
+   select-before-operate the OPERATE, which by [operate_only_after_faithful_select] exists only
+   after a faithful echo of the SELECT. *)
+Theorem success_implies_faithful_echo : forall cfg evs k o tok tok' ph hs q d sd,
+  nth_error (run cfg evs) (S k) = Some o -> In (ORes tok ROk) (map snd o) ->
+  s_run (state_at cfg evs k) = RNonRead (NRCommand tok' ph hs) q d sd ->
+  tok = tok' /\ ph <> PhSelect /\
+  exists src frag items h objs,
+    nth_error evs k = Some (ERx src frag VOk items) /\ parse_response frag = PResponse h objs /\
+    h_unsol h = false /\ src = c_addr cfg /\ c_seq (h_ctrl h) = q /\
+    faithful_echo hs objs /\
+    last_request (hist cfg evs k) = Some (mk_req q (cphase_fc ph) (encode_phs hs) 0).
+Proof.
+  intros cfg evs k o tok tok' ph hs q d sd Hn Hin Hr.
+  destruct (run_nth _ _ _ _ Hn) as (ev & Hev & ->). fold (state_at cfg evs k) in *.
+  destruct (s_stopped (state_at cfg evs k)) eqn:Hs.
+  { apply stopped_no_obs in Hin; [|exact Hs]. destruct Hin; discriminate. }
+  destruct (command_success_local _ _ _ _ _ _ _ _ _ _ Hs Hr Hin)
+    as (-> & Hph & src & frag & items & h & objs & -> & Hp & Hu & Hsrc & Hq & _ & _ & _ & Hcmp).
+  split; [reflexivity|]. split; [exact Hph|].
+  exists src, frag, items, h, objs. repeat split; try assumption.
+  - apply compare_ok_faithful. exact Hcmp.
+  - pose proof (run_tracks cfg evs k (nth_error_le _ _ _ Hev)) as Ht. fold (state_at cfg evs k) in Ht.
+    unfold tracks in Ht. rewrite Hr in Ht. destruct Ht as [(ro & Hl & Hok) _]. cbn [nr_objs_ok] in Hok. subst ro.
+    exact Hl.
+Qed.
+
+(* requests written in a step *)
+Definition is_req (o : mobs) : bool := match o with OTxReq _ _ _ _ => true | _ => false end.
+Definition req_free (l : list tobs) : Prop := Forall (fun p => is_req (snd p) = false) l.
+
+Lemma req_free_nil : req_free []. Proof. constructor. Qed.
+Lemma req_free_app a b : req_free a -> req_free b -> req_free (a ++ b).
+Proof. unfold req_free. intros. apply Forall_app. auto. Qed.
+Lemma req_free_emit st o : is_req o = false -> req_free (emit st o).
+Proof. Transparent emit. intros H. constructor; [exact H|constructor]. Qed.
+#[local] Opaque emit.
+Lemma req_free_flat_map {A} (f : A -> list tobs) l : (forall x, req_free (f x)) -> req_free (flat_map f l).
+Proof. intros H. induction l; cbn [flat_map]; [constructor|apply req_free_app; auto]. Qed.
+Lemma req_free_not_in l t d q fc objs : req_free l -> ~ In (t, OTxReq d q fc objs) l.
+Proof. unfold req_free. rewrite Forall_forall. intros H Hin. specialize (H _ Hin). discriminate. Qed.
+Ltac rf := repeat first [apply req_free_nil | apply req_free_app | apply req_free_emit; reflexivity].
+
+Lemma nr_error_rf cfg st k e st' o : nr_error cfg st k e = (st', o) -> req_free o.
+Proof.
+  unfold nr_error. destruct k as [tok ph hs|tok|tok fc|tok cold|a]; intros H; try (injection H as <- <-; rf).
+  destruct (s_assoc st); [destruct e|]; injection H as <- <-; rf.
+Qed.
+Lemma rd_error_rf cfg st k e st' o : rd_error cfg st k e = (st', o) -> req_free o.
+Proof.
+  unfold rd_error. destruct k; intros H; [injection H as <- <-; rf|]. destruct (s_assoc st); injection H as <- <-; rf.
+Qed.
+Lemma notify_fail_rf st ty e : req_free (notify_fail st ty e).
+Proof. unfold notify_fail. destruct (s_assoc st); rf. Qed.
+Lemma fail_running_rf cfg st e st' o : fail_running cfg st e = (st', o) -> req_free o.
+Proof.
+  unfold fail_running. destruct (s_run st); intros H.
+  - injection H as <- <-; rf.
+  - destruct (nr_error _ _ _ _) as [st1 o1] eqn:E. injection H as <- <-.
+    apply req_free_app; [eapply nr_error_rf; eauto|apply notify_fail_rf].
+  - destruct (rd_error _ _ _ _) as [st1 o1] eqn:E. injection H as <- <-.
+    apply req_free_app; [eapply rd_error_rf; eauto|apply notify_fail_rf].
+  - injection H as <- <-; rf.
+Qed.
+Lemma deliver_rf st rt h items : req_free (deliver st rt h items).
+Proof. unfold deliver. apply req_free_app; [rf|]. apply req_free_app; [|rf]. apply req_free_flat_map. intros; rf. Qed.
+Lemma handle_unsol_rf cfg st src h objs v items st' o : handle_unsol cfg st src h objs v items = (st', o) -> req_free o.
+Proof.
+  unfold handle_unsol. destruct (_ && s_assoc st); [|intros H; injection H as <- <-; rf].
+  destruct (_ || _); [|intros H; injection H as <- <-; rf].
+  destruct v; try (intros H; injection H as <- <-; rf).
+  destruct (match s_last_unsol _ with Some _ => _ | None => _ end); intros H; injection H as <- <-.
+  - apply req_free_app; [rf|]. destruct (c_con _); rf.
+  - apply req_free_app; [apply deliver_rf|]. apply req_free_app; [rf|]. destruct (c_con _); rf.
+Qed.
+
+(* an OPERATE on the wire is explained either by a generic request the user made with that
+   function code (announced by its task_start in the same step) or - see below - by a SELECT *)
+Definition explained (l : list tobs) : Prop :=
+  forall t d q objs, In (t, OTxReq d q 4 objs) l -> In (t, OInfoStart (TEmpty 4) 4 q) l.
+
+Lemma explained_rf l : req_free l -> explained l.
+Proof. intros H t d q objs Hin. exfalso. eapply req_free_not_in; eauto. Qed.
+Lemma explained_app a b : explained a -> explained b -> explained (a ++ b).
+Proof.
+  intros Ha Hb t d q objs Hin. apply in_app_or in Hin. apply in_or_app.
+  destruct Hin as [Hin|Hin]; [left; eapply Ha; eauto|right; eapply Hb; eauto].
+Qed.
+
+Lemma in_emit st o x : In x (emit st o) <-> x = (s_now st, o).
+Proof. Transparent emit. cbn. intuition congruence. Qed.
+#[local] Opaque emit.
+
+Lemma send_nonread_explained_start cfg st k objs sd st' o :
+  send_nonread cfg st k objs sd = (st', o) ->
+  (forall tok ph hs, k <> NRCommand tok ph hs \/ ph <> PhOperate) ->
+  explained (emit st (OInfoStart (nr_type k) (nr_fc0 k) (s_seq st)) ++ o).
+Proof.
+  unfold send_nonread. intros H Hk. destruct (fits cfg objs).
+  - injection H as <- <-. intros t d q ob Hin. apply in_app_or in Hin. destruct Hin as [Hin|Hin];
+      apply in_emit in Hin; [discriminate|]. injection Hin as Ht Hd Hq Hfc Hob. subst t d q ob.
+    apply in_or_app. left. apply in_emit.
+    destruct k as [tok ph hs|tok|tok fc|tok cold|a]; cbn [nr_fc nr_type nr_fc0 cphase_fc] in *.
+    + destruct ph; try discriminate. exfalso. destruct (Hk tok PhOperate hs) as [Hn|Hn]; apply Hn; reflexivity.
+    + discriminate.
+    + subst fc. reflexivity.
+    + destruct cold; discriminate.
+    + destruct a; discriminate.
+  - destruct (nr_error _ _ _ _) as [st2 o2] eqn:E. injection H as <- <-. apply explained_rf.
+    apply req_free_app; [rf|]. apply req_free_app; [eapply nr_error_rf; eauto|apply notify_fail_rf].
+Qed.
+
+Lemma start_nonread_explained cfg st k objs st' o :
+  start_nonread cfg st k objs = (st', o) -> (forall tok ph hs, k <> NRCommand tok ph hs \/ ph <> PhOperate) -> explained o.
+Proof.
+  unfold start_nonread. destruct (send_nonread _ _ _ _ _) as [st1 o1] eqn:E. intros H Hk. injection H as <- <-.
+  eapply send_nonread_explained_start; eauto.
+Qed.
+
+Lemma start_read_explained cfg st k objs st' o : start_read cfg st k objs = (st', o) -> explained o.
+Proof.
+  unfold start_read. destruct (fits cfg objs); intros H.
+  - injection H as <- <-. intros t d q ob Hin. apply in_app_or in Hin. destruct Hin as [Hin|Hin]; apply in_emit in Hin; discriminate.
+  - destruct (rd_error _ _ _ _) as [st2 o2] eqn:E. injection H as <- <-. apply explained_rf.
+    apply req_free_app; [rf|]. apply req_free_app; [eapply rd_error_rf; eauto|apply notify_fail_rf].
+Qed.
+
+Lemma start_user_explained cfg st tok t st' o : start_user cfg st tok t = (st', o) -> explained o.
+Proof.
+  unfold start_user. destruct t as [objs|sbo hs|hs|fc objs|cold|]; intros H.
+  - eapply start_read_explained; eauto.
+  - eapply start_nonread_explained; [eauto|]. intros tk ph hs'.
+    destruct ph; [right; discriminate| |right; discriminate].
+    left. destruct sbo; intros Heq; injection Heq as _ Heq _; discriminate.
+  - eapply start_nonread_explained; [eauto|]. intros; left; discriminate.
+  - eapply start_nonread_explained; [eauto|]. intros; left; discriminate.
+  - eapply start_nonread_explained; [eauto|]. intros; left; discriminate.
+  - injection H as <- <-. apply explained_rf. rf.
+Qed.
+
+Lemma pump_explained fuel cfg : forall st st' o, pump fuel cfg st = (st', o) -> explained o.
+Proof.
+  induction fuel as [|f IH]; intros st st' o H; cbn [pump] in H; [injection H as <- <-; apply explained_rf; rf|].
+  destruct (negb (s_conn st)); [injection H as <- <-; apply explained_rf; rf|].
+  destruct (s_run st); try (injection H as <- <-; apply explained_rf; rf).
+  destruct (next_task cfg st) as [|t|tok t|a|]; try (injection H as <- <-; apply explained_rf; rf).
+  - destruct (start_user _ _ _ _) as [st1 o1] eqn:E1. destruct (pump f cfg st1) as [st2 o2] eqn:E2.
+    injection H as <- <-. apply explained_app; [eapply start_user_explained; eauto|eapply IH; eauto].
+  - destruct (start_nonread _ _ _ _) as [st1 o1] eqn:E1. destruct (pump f cfg st1) as [st2 o2] eqn:E2.
+    injection H as <- <-. apply explained_app; [|eapply IH; eauto].
+    eapply start_nonread_explained; [eauto|]. intros; left; discriminate.
+  - destruct (start_read _ _ _ _) as [st1 o1] eqn:E1. destruct (pump f cfg st1) as [st2 o2] eqn:E2.
+    injection H as <- <-. apply explained_app; [eapply start_read_explained; eauto|eapply IH; eauto].
+Qed.
+
+Lemma fire_explained cfg st st' o : fire cfg st = (st', o) -> explained o.
+Proof.
+  unfold fire, then_pump, run_pump. destruct (s_run st); intros H; try (eapply pump_explained; eassumption);
+    destruct (fail_running _ _ _) as [st1 o1] eqn:E1; destruct (pump _ cfg st1) as [st2 o2] eqn:E2;
+    injection H as <- <-; (apply explained_app; [apply explained_rf; eapply fail_running_rf; eauto|eapply pump_explained; eauto]).
+Qed.
+
+Lemma advance_explained fuel cfg : forall st target st' o, advance fuel cfg st target = (st', o) -> explained o.
+Proof.
+  induction fuel as [|f IH]; intros st target st' o H; cbn [advance] in H; [injection H as <- <-; apply explained_rf; rf|].
+  destruct (wake_time cfg st) as [d|]; [|injection H as <- <-; apply explained_rf; rf].
+  destruct (d <=? target); [|injection H as <- <-; apply explained_rf; rf].
+  destruct (fire _ _) as [st1 o1] eqn:E1. destruct (advance f cfg st1 target) as [st2 o2] eqn:E2.
+  injection H as <- <-. apply explained_app; [eapply fire_explained; eauto|eapply IH; eauto].
+Qed.
+
+(* the requests a receive step writes by itself: only the OPERATE that follows a SELECT whose
+   echo passed the comparison *)
+Lemma on_rx_requests cfg st src frag v items st' o t d q' fc objs' :
+  on_rx cfg st src frag v items = (st', o) -> In (t, OTxReq d q' fc objs') o ->
+  exists tok hs q dd sd h objs,
+    s_run st = RNonRead (NRCommand tok PhSelect hs) q dd sd /\ s_conn st = true /\
+    parse_response frag = PResponse h objs /\ h_unsol h = false /\ accepted_answer cfg st src h = true /\
+    v = VOk /\ compare hs objs = COk /\
+    fc = 4 /\ objs' = encode_phs hs /\ q' = s_seq st /\ d = c_addr cfg.
+Proof.
+  unfold on_rx. destruct (s_conn st) eqn:Hc; cbn [negb].
+  2:{ intros H Hin. injection H as <- <-. apply in_emit in Hin. discriminate. }
+  destruct (parse_response frag) as [|h objs] eqn:Hp.
+  { intros H Hin. exfalso. destruct (s_run st); [injection H as <- <-; destruct Hin| | |];
+      (eapply req_free_not_in; [eapply fail_running_rf; exact H|exact Hin]). }
+  destruct (s_run st) as [|k seq dd sd|k seq first dd sd|tok dd] eqn:Hr.
+  - intros H Hin. exfalso. destruct (h_unsol h); [eapply req_free_not_in; [eapply handle_unsol_rf; eauto|eauto]|].
+    injection H as <- <-. destruct Hin.
+  - unfold on_nonread_rx. destruct (h_unsol h) eqn:Hu.
+    { intros H Hin. exfalso. eapply req_free_not_in; [eapply handle_unsol_rf; eauto|eauto]. }
+    destruct (src =? c_addr cfg) eqn:Hsrc; cbn [negb]; [|intros H Hin; injection H as <- <-; destruct Hin].
+    destruct (c_seq (h_ctrl h) =? seq) eqn:Hq; cbn [negb]; [|intros H Hin; injection H as <- <-; destruct Hin].
+    destruct (c_fir (h_ctrl h) && c_fin (h_ctrl h)) eqn:Hf; cbn [negb];
+      [|intros H Hin; exfalso; eapply req_free_not_in; [eapply fail_running_rf; eauto|eauto]].
+    destruct (iin2_bad (h_iin2 h)) eqn:Hi;
+      [intros H Hin; exfalso; eapply req_free_not_in; [eapply fail_running_rf; eauto|eauto]|].
+    assert (Ha : accepted_answer cfg st src h = true).
+    { unfold accepted_answer, is_answer, flags_ok. rewrite Hr, Hsrc, Hq, Hf, Hi. reflexivity. }
+    destruct (s_assoc st).
+    + destruct (handle_nonread_response _ _ _ _ _ _ _ _) as [st1 o1] eqn:E. intros H Hin. injection H as <- <-.
+      apply in_app_or in Hin. destruct Hin as [Hin|Hin].
+      { exfalso. destruct (c_con (h_ctrl h)); [apply in_emit in Hin; discriminate|destruct Hin]. }
+      unfold handle_nonread_response, nr_success, nr_failed in E.
+      destruct k as [tok ph hs|tok|tok fc0|tok cold|a].
+      * destruct v; try (injection E as <- <-; apply in_app_or in Hin; destruct Hin as [Hin|Hin]; apply in_emit in Hin; discriminate).
+        destruct (compare hs objs) eqn:Hcmp;
+          [|injection E as <- <-; apply in_app_or in Hin; destruct Hin as [Hin|Hin]; apply in_emit in Hin; discriminate].
+        destruct ph; try (injection E as <- <-; apply in_app_or in Hin; destruct Hin as [Hin|Hin]; apply in_emit in Hin; discriminate).
+        unfold send_nonread in E. destruct (fits cfg (encode_phs hs)).
+        -- injection E as <- <-. apply in_emit in Hin. injection Hin as Ht Hd Hq' Hfc Hob.
+           exists tok, hs, seq, dd, sd, h, objs. destruct (process_iin_keeps st (h_iin1 h)) as [_ Hks].
+           rewrite Hks in Hq'. cbn [nr_fc cphase_fc] in Hfc. repeat split; auto.
+        -- destruct (nr_error _ _ _ _) as [st2 o2] eqn:E2. injection E as <- <-. exfalso.
+           eapply req_free_not_in; [|exact Hin]. apply req_free_app; [eapply nr_error_rf; eauto|apply notify_fail_rf].
+      * exfalso. destruct objs; injection E as <- <-; apply in_app_or in Hin; destruct Hin as [Hin|Hin]; apply in_emit in Hin; discriminate.
+      * exfalso. destruct objs; injection E as <- <-; apply in_app_or in Hin; destruct Hin as [Hin|Hin]; apply in_emit in Hin; discriminate.
+      * exfalso. destruct v; try (injection E as <- <-; apply in_app_or in Hin; destruct Hin as [Hin|Hin]; apply in_emit in Hin; discriminate).
+        destruct (restart_delay objs); injection E as <- <-; apply in_app_or in Hin; destruct Hin as [Hin|Hin]; apply in_emit in Hin; discriminate.
+      * exfalso. injection E as <- <-. cbn [app] in Hin. apply in_emit in Hin. discriminate.
+    + destruct (nr_error _ _ _ _) as [st1 o1] eqn:E. intros H Hin. injection H as <- <-. exfalso.
+      apply in_app_or in Hin. destruct Hin as [Hin|Hin].
+      * destruct (c_con (h_ctrl h)); [apply in_emit in Hin; discriminate|destruct Hin].
+      * eapply req_free_not_in; [eapply nr_error_rf; eauto|eauto].
+  - intros H Hin. exfalso. unfold on_read_rx in H.
+    destruct (h_unsol h); [eapply req_free_not_in; [eapply handle_unsol_rf; eauto|eauto]|].
+    destruct (negb (src =? c_addr cfg)); [injection H as <- <-; destruct Hin|].
+    destruct (negb (c_seq (h_ctrl h) =? seq)); [injection H as <- <-; destruct Hin|].
+    destruct (_ && negb first); [eapply req_free_not_in; [eapply fail_running_rf; eauto|eauto]|].
+    destruct (negb _ && first); [eapply req_free_not_in; [eapply fail_running_rf; eauto|eauto]|].
+    destruct (negb _ && negb _); [eapply req_free_not_in; [eapply fail_running_rf; eauto|eauto]|].
+    destruct (iin2_bad _); [eapply req_free_not_in; [eapply fail_running_rf; eauto|eauto]|].
+    destruct (negb (s_assoc st)); [eapply req_free_not_in; [eapply fail_running_rf; eauto|eauto]|].
+    destruct v; [|eapply req_free_not_in; [eapply fail_running_rf; eauto|eauto]
+                 |eapply req_free_not_in; [eapply fail_running_rf; eauto|eauto]].
+    assert (Hrf : req_free (deliver st (rd_read_type k) h items ++
+                            (if c_con (h_ctrl h) then emit st (OTxConfirm (c_addr cfg) false seq) else []))).
+    { apply req_free_app; [apply deliver_rf|]. destruct (c_con _); rf. }
+    destruct (c_fin _).
+    + destruct k as [tok|]; injection H as <- <-; (eapply req_free_not_in; [|exact Hin]);
+        (apply req_free_app; [exact Hrf|]); rf.
+    + injection H as <- <-. eapply req_free_not_in; [exact Hrf|exact Hin].
+  - intros H Hin. exfalso.
+    destruct (if h_unsol h then _ else _) as [st1 o1] eqn:E1. destruct (fail_running cfg st1 EBadHeaders) as [st2 o2] eqn:E2.
+    injection H as <- <-. eapply req_free_not_in; [|exact Hin]. apply req_free_app; [|eapply fail_running_rf; exact E2].
+    destruct (h_unsol h); [eapply handle_unsol_rf; exact E1|injection E1 as <- <-; rf].
+Qed.
